@@ -153,7 +153,12 @@ def execute(ctx, case):
   router = make_router(b, case['hash'])
   ref = refring.RefRing(case['hash'])
   for n in nodes:
-    router.addDestination(dest(n))
+    try:
+      router.addDestination(dest(n))
+    except Exception as e:  # noqa
+      ctx.fail('C06:membership-operation-raised:%s' % type(e).__name__, 'building the ring for %r: addDestination(%r) raised %r' % (
+        nodes, dest(n), e), case, 'compatibility')
+      return
     ref.add(n)
   live = list(nodes)
   ever = set(nodes)
@@ -166,13 +171,19 @@ def execute(ctx, case):
   for k, (op, i) in enumerate(case['ops']):
     node = nodes[i]
     label = 'after ops %r' % (case['ops'][:k + 1],)
+    try:
+      if op == 'remove':
+        router.removeDestination(dest(node))
+      else:
+        router.addDestination(dest(node))
+    except Exception as e:  # noqa
+      ctx.fail('C06:membership-operation-raised:%s' % type(e).__name__, '%s: %s(%r) raised %r' % (label, op, dest(node), e), case, 'compatibility')
+      return
     if op == 'remove':
-      router.removeDestination(dest(node))
       ref.remove(node)
       live.remove(node)
       removed.add(node)
     else:
-      router.addDestination(dest(node))
       ref.add(node)
       live.append(node)
       if node in removed:
@@ -204,7 +215,11 @@ def execute(ctx, case):
     router2 = make_router(b, case['hash'])
     ref2 = refring.RefRing(case['hash'])
     for n in fresh_nodes:
-      router2.addDestination(dest(n))
+      try:
+        router2.addDestination(dest(n))
+      except Exception as e:  # noqa
+        ctx.fail('C06:membership-operation-raised:%s' % type(e).__name__, 'fresh ring %r: addDestination raised %r' % (fresh_nodes, e), case)
+        return
       ref2.add(n)
     fresh = snapshot(ctx, case, router2, ref2, 'fresh ring of the live nodes %r' % (fresh_nodes,))
     if fresh is None:
